@@ -21,8 +21,13 @@ UNITS = [
          requires=[("wf", "wf_segments(path.segments@)")],
          ensures=[
              ("ok", "r is Ok"),
+             # C01: the RFC nodes with their multiplicities, for EVERY well-formed query
+             ("nodes", "r matches Ok(v) && ms(qnodes(v@)) == ms(rfc_query(*path, value))"),
+             # C02: in RFC order whenever no multi-selector segment receives several input nodes
              ("nodelist", "r matches Ok(v) && (segs_exact(path.segments@, true) ==> qnodes(v@) == rfc_query(*path, value))"),
          ],
+         body_prefix="proof { lemma_rfc_reading(path.segments@, seq![root_node(value)], value); }",
+         tail_proof="match &__r { Ok(v) => { assert(qnodes(v@) =~= impl_segs(path.segments@, seq![root_node(value)], value)); } _ => {} }",
          shapes=[("R2v", 1)],
          # Pointer -> QueryRef goes through std's From/Into contract (FromSpecImpl in helpers.rs);
          # T -> JsonPathError (format!) is the opaque E6 conversion
@@ -30,6 +35,7 @@ UNITS = [
     Unit(name="js_path", file=F, fn="js_path", order=72, serves=["C01", "C08"],
          ensures=[
              ("parse_err", "parsed(path@) is None ==> r is Err"),
+             ("nodes", "parsed(path@) matches Some(q) ==> r matches Ok(v) && ms(qnodes(v@)) == ms(rfc_query(q, value))"),
              ("nodelist", "parsed(path@) matches Some(q) ==> r matches Ok(v) && (segs_exact(q.segments@, true) ==> qnodes(v@) == rfc_query(q, value))"),
          ]),
     Unit(name="js_path_vals", file=F, fn="js_path_vals", order=72, serves=["C01"],
